@@ -1,6 +1,353 @@
 package main
 
 // Turning solver models into native replays (go test -overlay).
+//
+// For a failed obligation whose query is satisfiable, the values of the
+// function's parameters (and of the heap objects directly reachable from them)
+// are read from the model with (get-value ...), turned into Go literals, and a
+// generated in-package test calls the real function (or lemma harness) in a
+// scratch overlay of /repo. The replay confirms the violation when
+//   - a no-panic obligation failed and the call panics,
+//   - a lemma failed and the harness returns false (or panics),
+//   - a postcondition failed, the clause can be translated to Go, and it
+//     evaluates to false on the real result.
+// Anything else is reported with no-failing-input-found.
+
+import (
+	"encoding/json"
+	"fmt"
+	"go/types"
+	"os"
+	"os/exec"
+	"path/filepath"
+	"strconv"
+	"strings"
+
+	"golang.org/x/tools/go/ssa"
+)
+
+type sx struct {
+	atom string
+	str  bool
+	list []*sx
+}
+
+func parseSx(s string) []*sx {
+	var out []*sx
+	p := 0
+	var parse func() *sx
+	skip := func() {
+		for p < len(s) && (s[p] == ' ' || s[p] == '\n' || s[p] == '\t' || s[p] == '\r') {
+			p++
+		}
+	}
+	parse = func() *sx {
+		skip()
+		if p >= len(s) {
+			return nil
+		}
+		if s[p] == '(' {
+			p++
+			n := &sx{list: []*sx{}}
+			for {
+				skip()
+				if p >= len(s) {
+					return n
+				}
+				if s[p] == ')' {
+					p++
+					return n
+				}
+				c := parse()
+				if c == nil {
+					return n
+				}
+				n.list = append(n.list, c)
+			}
+		}
+		if s[p] == '"' {
+			p++
+			var b strings.Builder
+			for p < len(s) {
+				if s[p] == '"' {
+					if p+1 < len(s) && s[p+1] == '"' {
+						b.WriteByte('"')
+						p += 2
+						continue
+					}
+					p++
+					break
+				}
+				b.WriteByte(s[p])
+				p++
+			}
+			return &sx{atom: b.String(), str: true}
+		}
+		st := p
+		for p < len(s) && !strings.ContainsRune(" \n\t\r()", rune(s[p])) {
+			p++
+		}
+		return &sx{atom: s[st:p]}
+	}
+	for {
+		n := parse()
+		if n == nil {
+			break
+		}
+		out = append(out, n)
+	}
+	return out
+}
+
+func (n *sx) isList() bool { return n.list != nil }
+
+func (n *sx) intVal() (int64, string, bool) {
+	if n == nil {
+		return 0, "", false
+	}
+	if !n.isList() && !n.str {
+		if _, err := strconv.ParseInt(n.atom, 10, 64); err == nil {
+			v, _ := strconv.ParseInt(n.atom, 10, 64)
+			return v, n.atom, true
+		}
+		// big numbers
+		ok := len(n.atom) > 0
+		for _, c := range n.atom {
+			if c < '0' || c > '9' {
+				ok = false
+			}
+		}
+		if ok {
+			return 0, n.atom, true
+		}
+		return 0, "", false
+	}
+	if n.isList() && len(n.list) == 2 && n.list[0].atom == "-" {
+		_, s, ok := n.list[1].intVal()
+		if ok {
+			v, _ := strconv.ParseInt("-"+s, 10, 64)
+			return v, "-" + s, true
+		}
+	}
+	return 0, "", false
+}
+
+// smtStringToGo decodes SMT-LIB string escapes (\u{..}) into a Go string (bytes 0..255).
+func smtStringToGo(s string) (string, bool) {
+	var b []byte
+	for i := 0; i < len(s); {
+		if strings.HasPrefix(s[i:], "\\u{") {
+			j := strings.Index(s[i:], "}")
+			if j < 0 {
+				return "", false
+			}
+			v, err := strconv.ParseInt(s[i+3:i+j], 16, 32)
+			if err != nil || v > 255 {
+				return "", false
+			}
+			b = append(b, byte(v))
+			i += j + 1
+			continue
+		}
+		b = append(b, s[i])
+		i++
+	}
+	return string(b), true
+}
+
+type replayer struct {
+	o      *checkOpts
+	ob     *Obligation
+	vc     *VC
+	file   string // query file with get-value
+	values map[string]*sx
+	ok     bool
+	notes  []string
+	stringPrefs string // extra assertions: string inputs use printable ASCII
+}
+
+func (r *replayer) note(f string, a ...any) { r.notes = append(r.notes, fmt.Sprintf(f, a...)) }
+
+// getValues asks the solver that found the model for the values of terms.
+func (r *replayer) getValues(terms []string) map[string]*sx {
+	q := r.ob.query(false)
+	q = strings.Replace(q, "(set-logic ALL)", "(set-option :produce-models true)\n(set-logic ALL)", 1)
+	q = strings.Replace(q, "(check-sat)\n", r.stringPrefs+"(check-sat)\n", 1)
+	q += "(get-value (" + strings.Join(terms, " ") + "))\n"
+	tmp, _ := os.MkdirTemp("", "govc-replay")
+	defer os.RemoveAll(tmp)
+	f := filepath.Join(tmp, "m.smt2")
+	os.WriteFile(f, []byte(q), 0o644)
+	out := map[string]*sx{}
+	for _, sp := range solvers {
+		if sp.name == "cvc5" {
+			continue
+		}
+		res := runSolver(sp, f, 20, 0)
+		if res.status != "sat" {
+			continue
+		}
+		body := res.output[strings.Index(res.output, "\n")+1:]
+		xs := parseSx(body)
+		if len(xs) == 0 || !xs[0].isList() {
+			continue
+		}
+		for i, pair := range xs[0].list {
+			if pair.isList() && len(pair.list) == 2 && i < len(terms) {
+				out[terms[i]] = pair.list[1]
+			}
+		}
+		if len(out) > 0 {
+			return out
+		}
+	}
+	return out
+}
+
+// goLit builds a Go expression for the model value of term (of Go type t).
+// Heap-allocated inputs are declared in pre (statements before the call).
+func (r *replayer) goLit(term string, t types.Type, pre *[]string, depth int) (string, bool) {
+	u := r.vc.u
+	if depth > 3 {
+		return "", false
+	}
+	qual := func(t types.Type) string {
+		return types.TypeString(t, func(p *types.Package) string {
+			if p.Path() == "github.com/mfcochauxlaberge/jsonapi" {
+				return ""
+			}
+			return p.Name()
+		})
+	}
+	get := func(tm string) *sx {
+		vs := r.getValues([]string{tm})
+		return vs[tm]
+	}
+	if isTime(t) {
+		v := get("(tinst " + term + ")")
+		if n, _, ok := v.intVal(); ok {
+			return fmt.Sprintf("time.Unix(0, 0).Add(time.Duration(%d))", n%1000000000000), true
+		}
+		return "", false
+	}
+	switch tt := types.Unalias(t).Underlying().(type) {
+	case *types.Basic:
+		v := get(term)
+		if v == nil {
+			return "", false
+		}
+		switch {
+		case tt.Info()&types.IsBoolean != 0:
+			return v.atom, v.atom == "true" || v.atom == "false"
+		case tt.Info()&types.IsInteger != 0:
+			_, s, ok := v.intVal()
+			if !ok {
+				return "", false
+			}
+			return qual(t) + "(" + s + ")", true
+		case tt.Info()&types.IsString != 0:
+			if !v.str {
+				return "", false
+			}
+			g, ok := smtStringToGo(v.atom)
+			if !ok {
+				r.note("model string outside the byte alphabet")
+				return "", false
+			}
+			return strconv.Quote(g), true
+		}
+	case *types.Struct:
+		si := u.structOf(t)
+		if si == nil {
+			return "", false
+		}
+		var fs []string
+		for i := 0; i < tt.NumFields(); i++ {
+			fl, ok := r.goLit("("+si.fields[i]+" "+term+")", tt.Field(i).Type(), pre, depth+1)
+			if !ok {
+				return "", false
+			}
+			fs = append(fs, tt.Field(i).Name()+": "+fl)
+		}
+		return qual(t) + "{" + strings.Join(fs, ", ") + "}", true
+	case *types.Pointer:
+		v := get(term)
+		n, _, ok := v.intVal()
+		if !ok {
+			return "", false
+		}
+		if n == 0 {
+			return "(" + qual(t) + ")(nil)", true
+		}
+		key := u.heapKey(tt.Elem())
+		el, ok := r.goLit("(select H0_"+key+" "+term+")", tt.Elem(), pre, depth+1)
+		if !ok {
+			return "", false
+		}
+		name := fmt.Sprintf("obj%d", len(*pre))
+		*pre = append(*pre, fmt.Sprintf("%s := new(%s); *%s = %s", name, qual(tt.Elem()), name, el))
+		return name, true
+	case *types.Slice:
+		vs := r.getValues([]string{"(sptr " + term + ")", "(slen " + term + ")"})
+		p, _, ok1 := vs["(sptr "+term+")"].intVal()
+		l, _, ok2 := vs["(slen "+term+")"].intVal()
+		if !ok1 || !ok2 || l > 64 {
+			return "", false
+		}
+		if p == 0 && l == 0 {
+			return qual(t) + "(nil)", true
+		}
+		key := u.heapKey(tt.Elem())
+		var es []string
+		for i := int64(0); i < l; i++ {
+			e, ok := r.goLit(fmt.Sprintf("(select H0_%s (+ (sptr %s) %d))", key, term, i), tt.Elem(), pre, depth+1)
+			if !ok {
+				return "", false
+			}
+			es = append(es, e)
+		}
+		return qual(t) + "{" + strings.Join(es, ", ") + "}", true
+	case *types.Interface:
+		vs := r.getValues([]string{"(atag " + term + ")"})
+		tag, _, ok := vs["(atag "+term+")"].intVal()
+		if !ok {
+			return "", false
+		}
+		if tag == 0 {
+			return "nil", true
+		}
+		dt, ok := u.tagTypes[int(tag)]
+		if !ok {
+			r.note("model uses a dynamic type outside the table (tag %d)", tag)
+			return "", false
+		}
+		var inner string
+		switch r.vc.ifaceRepr(dt) {
+		case "num":
+			if _, isPtr := types.Unalias(dt).Underlying().(*types.Pointer); isPtr {
+				inner, ok = r.goLit("(anum "+term+")", dt, pre, depth+1)
+			} else {
+				inner, ok = r.goLit("(anum "+term+")", dt, pre, depth+1)
+			}
+		case "bool":
+			v := get("(anum " + term + ")")
+			n, _, ok2 := v.intVal()
+			inner, ok = fmt.Sprint(n == 1), ok2
+		case "str":
+			inner, ok = r.goLit("(astr "+term+")", dt, pre, depth+1)
+		case "slice":
+			inner, ok = r.goLit("(asl "+term+")", dt, pre, depth+1)
+		default:
+			key := u.heapKey(dt)
+			inner, ok = r.goLit("(select H0_"+key+" (anum "+term+"))", dt, pre, depth+1)
+		}
+		if !ok {
+			return "", false
+		}
+		return "any(" + inner + ")", true
+	}
+	return "", false
+}
 
 func replayObligation(o *checkOpts, ob *Obligation) map[string]any {
 	rp := map[string]any{
@@ -12,8 +359,471 @@ func replayObligation(o *checkOpts, ob *Obligation) map[string]any {
 		"solver":        ob.Solver,
 		"solver_status": ob.Status,
 		"solver_output": ob.Output,
-		"model":         ob.Model,
 		"confirmed":     false,
 	}
+	if ob.Status != "failed" || ob.Output != "sat" || ob.vc == nil || ob.vc.eng == nil {
+		rp["replay_note"] = "the solver returned no model (" + ob.Status + "): the obligation is undischarged; no input to replay"
+		return rp
+	}
+	eng := ob.vc.eng
+	fn := eng.funcs[ob.Func]
+	if fn == nil || len(ob.vc.params) != len(fn.Params) {
+		rp["replay_note"] = "no parameter terms recorded"
+		return rp
+	}
+	r := &replayer{o: o, ob: ob, vc: ob.vc}
+	// prefer models whose strings are printable ASCII (replayable and readable);
+	// fall back to the unconstrained model if there is none
+	var prefs []string
+	for i, p := range fn.Params {
+		for _, st := range stringLeaves(ob.vc, ob.vc.params[i].S, p.Type(), 0) {
+			if strings.HasPrefix(st, "SLICE:") {
+				prefs = append(prefs, "(assert (<= (slen "+st[6:]+") 4))")
+				continue
+			}
+			prefs = append(prefs, "(assert (str.in_re "+st+" (re.* (re.range \" \" \"~\"))))")
+		}
+	}
+	r.stringPrefs = strings.Join(prefs, "\n") + "\n"
+	if len(prefs) > 0 {
+		if vs := r.getValues([]string{"true"}); len(vs) == 0 {
+			r.stringPrefs = ""
+		}
+	}
+	var pre []string
+	var args []string
+	inputs := map[string]string{}
+	for i, p := range fn.Params {
+		lit, ok := r.goLit(ob.vc.params[i].S, p.Type(), &pre, 0)
+		if !ok {
+			rp["replay_note"] = fmt.Sprintf("cannot turn the model value of parameter %s (%s) into a Go input: %s", p.Name(), typeStr(p.Type()), strings.Join(r.notes, "; "))
+			return rp
+		}
+		args = append(args, lit)
+		inputs[p.Name()] = lit
+	}
+	rp["inputs"] = inputs
+	rp["input_setup"] = pre
+	test, expect := buildReplayTest(eng, fn, ob, pre, args)
+	if test == "" {
+		rp["replay_note"] = "this kind of obligation has no native oracle (" + expect + ")"
+		return rp
+	}
+	rp["go_test"] = test
+	out, err := runOverlayTest(o.repo, test)
+	rp["native_output"] = out
+	if err != nil {
+		rp["replay_note"] = "replay could not be run: " + err.Error()
+		return rp
+	}
+	switch {
+	case strings.Contains(out, "GOVC-REPLAY: VIOLATED"):
+		rp["confirmed"] = true
+	case strings.Contains(out, "GOVC-REPLAY: HOLDS"):
+		rp["replay_note"] = "the real code satisfies the obligation on the model's input (model relies on an assumed contract being weaker than the real dependency, or on heap shapes the replay cannot build)"
+	default:
+		rp["replay_note"] = "replay produced no verdict"
+	}
 	return rp
+}
+
+// buildReplayTest returns the Go source of the replay test and a description of the oracle.
+func buildReplayTest(eng *Engine, fn *ssa.Function, ob *Obligation, pre, args []string) (string, string) {
+	var call string
+	name := fn.Name()
+	if fn.Signature.Recv() != nil {
+		call = "(" + args[0] + ")." + name + "(" + strings.Join(args[1:], ", ") + ")"
+	} else {
+		call = name + "(" + strings.Join(args, ", ") + ")"
+	}
+	nres := fn.Signature.Results().Len()
+	var b strings.Builder
+	b.WriteString("package jsonapi\n\nimport (\n\t\"fmt\"\n\t\"testing\"\n\t\"time\"\n)\n\nvar _ = time.Now\nvar _ = fmt.Sprint\n\n")
+	b.WriteString("func TestGovcReplay(t *testing.T) {\n")
+	oracle := ""
+	switch ob.Kind {
+	case "nopanic":
+		oracle = "panic expected"
+		b.WriteString("\tdefer func() {\n\t\tif r := recover(); r != nil {\n\t\t\tfmt.Println(\"GOVC-REPLAY: VIOLATED: panic:\", r)\n\t\t\treturn\n\t\t}\n\t\tfmt.Println(\"GOVC-REPLAY: HOLDS: no panic\")\n\t}()\n")
+		for _, p := range pre {
+			b.WriteString("\t" + p + "\n")
+		}
+		if nres > 0 {
+			b.WriteString("\t_" + strings.Repeat(", _", nres-1) + " = " + call + "\n")
+		} else {
+			b.WriteString("\t" + call + "\n")
+		}
+	case "lemma":
+		oracle = "lemma returns false or panics"
+		b.WriteString("\tdefer func() {\n\t\tif r := recover(); r != nil {\n\t\t\tfmt.Println(\"GOVC-REPLAY: VIOLATED: panic:\", r)\n\t\t}\n\t}()\n")
+		for _, p := range pre {
+			b.WriteString("\t" + p + "\n")
+		}
+		b.WriteString("\tif " + call + " {\n\t\tfmt.Println(\"GOVC-REPLAY: HOLDS: lemma returned true\")\n\t} else {\n\t\tfmt.Println(\"GOVC-REPLAY: VIOLATED: lemma returned false\")\n\t}\n")
+	case "post":
+		// translate the clause
+		con := eng.contracts[ob.Func]
+		var clause *Clause
+		if con != nil {
+			for _, c := range con.Ensures {
+				if ob.Name == ob.Func+"/post/"+c.Name {
+					clause = c
+				}
+			}
+		}
+		if clause == nil {
+			return "", "clause not found"
+		}
+		g := &goEmitter{eng: eng, fn: fn}
+		// bind parameters to locals so that the clause can name them
+		var names []string
+		if rcv := fn.Signature.Recv(); rcv != nil {
+			names = append(names, rcv.Name())
+		}
+		for i := 0; i < fn.Signature.Params().Len(); i++ {
+			names = append(names, fn.Signature.Params().At(i).Name())
+		}
+		expr, ok := g.emit(clause.E)
+		if !ok {
+			return "", "clause not translatable to Go: " + g.why
+		}
+		oracle = "clause evaluates to false"
+		b.WriteString("\tdefer func() {\n\t\tif r := recover(); r != nil {\n\t\t\tfmt.Println(\"GOVC-REPLAY: VIOLATED: panic:\", r)\n\t\t}\n\t}()\n")
+		for _, p := range pre {
+			b.WriteString("\t" + p + "\n")
+		}
+		var callArgs []string
+		for i, n := range names {
+			if n == "" || n == "_" {
+				n = fmt.Sprintf("arg%d", i)
+			}
+			b.WriteString(fmt.Sprintf("\t%s := %s\n\t_ = %s\n", n, args[i], n))
+			callArgs = append(callArgs, n)
+		}
+		var c2 string
+		if fn.Signature.Recv() != nil {
+			c2 = "(" + callArgs[0] + ")." + name + "(" + strings.Join(callArgs[1:], ", ") + ")"
+		} else {
+			c2 = name + "(" + strings.Join(callArgs, ", ") + ")"
+		}
+		switch nres {
+		case 0:
+			b.WriteString("\t" + c2 + "\n")
+		case 1:
+			b.WriteString("\tresult := " + c2 + "\n\t_ = result\n")
+		default:
+			var rs []string
+			for i := 0; i < nres; i++ {
+				rs = append(rs, fmt.Sprintf("result%d", i))
+			}
+			b.WriteString("\t" + strings.Join(rs, ", ") + " := " + c2 + "\n")
+			for _, x := range rs {
+				b.WriteString("\t_ = " + x + "\n")
+			}
+		}
+		b.WriteString("\tif " + expr + " {\n\t\tfmt.Println(\"GOVC-REPLAY: HOLDS: clause true\")\n\t} else {\n\t\tfmt.Println(\"GOVC-REPLAY: VIOLATED: clause false\")\n\t}\n")
+	default:
+		return "", "obligation kind " + ob.Kind
+	}
+	b.WriteString("}\n")
+	return b.String(), oracle
+}
+
+// goEmitter translates the quantifier-free, heap-free fragment of the
+// specification language into Go.
+type goEmitter struct {
+	eng *Engine
+	fn  *ssa.Function
+	why string
+	sub map[string]string
+}
+
+func (g *goEmitter) fail(f string, a ...any) (string, bool) {
+	if g.why == "" {
+		g.why = fmt.Sprintf(f, a...)
+	}
+	return "", false
+}
+
+func (g *goEmitter) emit(x SExpr) (string, bool) {
+	switch n := x.(type) {
+	case *sParen:
+		s, ok := g.emit(n.SExpr)
+		return "(" + s + ")", ok
+	case *SInt:
+		return n.V, true
+	case *SStr:
+		return strconv.Quote(n.V), true
+	case *SBool:
+		return fmt.Sprint(n.V), true
+	case *SNil:
+		return "nil", true
+	case *SIdent:
+		if s, ok := g.sub[n.Name]; ok {
+			return s, true
+		}
+		if strings.HasPrefix(n.Name, "$") {
+			return g.fail("ghost identifier %s", n.Name)
+		}
+		return n.Name, true
+	case *SUnary:
+		s, ok := g.emit(n.X)
+		if !ok {
+			return "", false
+		}
+		if n.Op == "*" {
+			return "(*" + s + ")", true
+		}
+		return "(" + n.Op + s + ")", true
+	case *SBinary:
+		a, ok1 := g.emit(n.X)
+		b, ok2 := g.emit(n.Y)
+		if !ok1 || !ok2 {
+			return "", false
+		}
+		switch n.Op {
+		case "==>":
+			return "(!(" + a + ") || (" + b + "))", true
+		case "<==>":
+			return "((" + a + ") == (" + b + "))", true
+		case "in", "!in":
+			return g.fail("map membership")
+		}
+		return "(" + a + " " + n.Op + " " + b + ")", true
+	case *SSel:
+		s, ok := g.emit(n.X)
+		return s + "." + n.Name, ok
+	case *SCall:
+		switch n.Fun {
+		case "len":
+			s, ok := g.emit(n.Args[0])
+			return "len(" + s + ")", ok
+		case "ite":
+			c, ok1 := g.emit(n.Args[0])
+			a, ok2 := g.emit(n.Args[1])
+			b, ok3 := g.emit(n.Args[2])
+			if !ok1 || !ok2 || !ok3 {
+				return "", false
+			}
+			return "func() any { if " + c + " { return " + a + " }; return " + b + " }()", true
+		case "inst":
+			s, ok := g.emit(n.Args[0])
+			return s + ".UnixNano()", ok
+		}
+		if sf, ok := g.eng.specFuncs[n.Fun]; ok {
+			if len(sf.Params) != len(n.Args) {
+				return g.fail("arity")
+			}
+			old := g.sub
+			ns := map[string]string{}
+			for k, v := range old {
+				ns[k] = v
+			}
+			for i, p := range sf.Params {
+				a, ok := g.emit(n.Args[i])
+				if !ok {
+					return "", false
+				}
+				ns[p.Name] = "(" + a + ")"
+			}
+			g.sub = ns
+			s, ok := g.emit(sf.Body)
+			g.sub = old
+			return "(" + s + ")", ok
+		}
+		if pf := g.eng.pureFunc(n.Fun); pf != nil {
+			var as []string
+			for _, a := range n.Args {
+				s, ok := g.emit(a)
+				if !ok {
+					return "", false
+				}
+				as = append(as, s)
+			}
+			return n.Fun + "(" + strings.Join(as, ", ") + ")", true
+		}
+		return g.fail("function %s has no Go counterpart", n.Fun)
+	case *SMCall:
+		recv, ok := g.emit(n.X)
+		if !ok {
+			return "", false
+		}
+		if id, isID := n.X.(*SIdent); isID && g.eng.u.pkg.Scope().Lookup(id.Name) != nil {
+			if _, isType := g.eng.u.pkg.Scope().Lookup(id.Name).(*types.TypeName); isType {
+				// Type.Method(x, args...)  ==  x.Method(args...)
+				if len(n.Args) == 0 {
+					return g.fail("static method call without receiver")
+				}
+				r0, ok := g.emit(n.Args[0])
+				if !ok {
+					return "", false
+				}
+				var as []string
+				for _, a := range n.Args[1:] {
+					s, ok := g.emit(a)
+					if !ok {
+						return "", false
+					}
+					as = append(as, s)
+				}
+				rt := "any"
+				if pf := g.eng.pureFunc(id.Name + "." + n.Name); pf != nil && pf.fn.Signature.Results().Len() == 1 {
+					rt = types.TypeString(pf.fn.Signature.Results().At(0).Type(), func(p *types.Package) string {
+						if p.Path() == "github.com/mfcochauxlaberge/jsonapi" {
+							return ""
+						}
+						return p.Name()
+					})
+				}
+				return "func() " + rt + " { v := " + r0 + "; return v." + n.Name + "(" + strings.Join(as, ", ") + ") }()", true
+			}
+		}
+		var as []string
+		for _, a := range n.Args {
+			s, ok := g.emit(a)
+			if !ok {
+				return "", false
+			}
+			as = append(as, s)
+		}
+		return recv + "." + n.Name + "(" + strings.Join(as, ", ") + ")", true
+	}
+	if q, ok := x.(*SQuant); ok {
+		// integer-indexed quantifiers are evaluated over a small range: inputs built
+		// by the replay have at most 64 elements, and guards short-circuit in Go
+		body, ok := g.emit(q.Body)
+		if !ok {
+			return "", false
+		}
+		for _, v := range q.Vars {
+			if v.Type != "int" {
+				return g.fail("quantifier over %s", v.Type)
+			}
+		}
+		var b strings.Builder
+		b.WriteString("func() bool { ")
+		for _, v := range q.Vars {
+			fmt.Fprintf(&b, "for %s := -2; %s <= 70; %s++ { ", v.Name, v.Name, v.Name)
+		}
+		if q.Forall {
+			b.WriteString("if !(" + body + ") { return false }; ")
+		} else {
+			b.WriteString("if " + body + " { return true }; ")
+		}
+		for range q.Vars {
+			b.WriteString("}; ")
+		}
+		if q.Forall {
+			b.WriteString("return true }()")
+		} else {
+			b.WriteString("return false }()")
+		}
+		return b.String(), true
+	}
+	if ix, ok := x.(*SIndex); ok {
+		a, ok1 := g.emit(ix.X)
+		i, ok2 := g.emit(ix.I)
+		if !ok1 || !ok2 {
+			return "", false
+		}
+		return a + "[" + i + "]", true
+	}
+	return g.fail("%T is outside the translatable fragment", x)
+}
+
+// runOverlayTest injects the test into a copy-free overlay of repo and runs it.
+func runOverlayTest(repo, test string) (string, error) {
+	tmp, err := os.MkdirTemp("", "govc-overlay")
+	if err != nil {
+		return "", err
+	}
+	defer os.RemoveAll(tmp)
+	tf := filepath.Join(tmp, "zz_govc_replay_test.go")
+	if err := os.WriteFile(tf, []byte(test), 0o644); err != nil {
+		return "", err
+	}
+	ov := map[string]any{"Replace": map[string]string{filepath.Join(repo, "zz_govc_replay_test.go"): tf}}
+	ob, _ := json.Marshal(ov)
+	of := filepath.Join(tmp, "overlay.json")
+	os.WriteFile(of, ob, 0o644)
+	cmd := exec.Command("go", "test", "-overlay", of, "-tags", "verif", "-vet=off", "-count=1", "-timeout", "60s", "-run", "^TestGovcReplay$", "-v", ".")
+	cmd.Dir = repo
+	cmd.Env = append(os.Environ(), "GOFLAGS=-mod=mod", "GOPROXY=off", "GOSUMDB=off", "GOTOOLCHAIN=local")
+	out, err := cmd.CombinedOutput()
+	s := string(out)
+	if len(s) > 4000 {
+		s = s[:4000]
+	}
+	if err != nil && !strings.Contains(s, "GOVC-REPLAY:") {
+		return s, fmt.Errorf("go test: %v", err)
+	}
+	return s, nil
+}
+
+func cmdReplayFile(path string) int {
+	b, err := os.ReadFile(path)
+	if err != nil {
+		fmt.Println(err)
+		return 2
+	}
+	var rp map[string]any
+	if err := json.Unmarshal(b, &rp); err != nil {
+		fmt.Println(err)
+		return 2
+	}
+	fmt.Printf("obligation: %v\nclause: %v\nconfirmed: %v\n", rp["obligation"], rp["clause"], rp["confirmed"])
+	test, _ := rp["go_test"].(string)
+	if test == "" {
+		fmt.Println("no native replay stored:", rp["replay_note"])
+		return 0
+	}
+	out, err := runOverlayTest("/repo", test)
+	fmt.Println(out)
+	if err != nil {
+		fmt.Println(err)
+		return 2
+	}
+	if strings.Contains(out, "GOVC-REPLAY: VIOLATED") {
+		return 1
+	}
+	return 0
+}
+
+// stringLeaves lists the string-valued terms reachable from a parameter
+// (struct fields, pointees, interface payloads) without consulting a model.
+func stringLeaves(vc *VC, term string, t types.Type, depth int) []string {
+	if depth > 3 || isTime(t) {
+		return nil
+	}
+	switch tt := types.Unalias(t).Underlying().(type) {
+	case *types.Basic:
+		if tt.Info()&types.IsString != 0 {
+			return []string{term}
+		}
+	case *types.Struct:
+		si := vc.u.structOf(t)
+		if si == nil {
+			return nil
+		}
+		var out []string
+		for i := 0; i < tt.NumFields(); i++ {
+			out = append(out, stringLeaves(vc, "("+si.fields[i]+" "+term+")", tt.Field(i).Type(), depth+1)...)
+		}
+		return out
+	case *types.Pointer:
+		if _, ok := vc.u.heapKeys[vc.u.heapKey(tt.Elem())]; ok {
+			return stringLeaves(vc, "(select H0_"+vc.u.heapKey(tt.Elem())+" "+term+")", tt.Elem(), depth+1)
+		}
+	case *types.Interface:
+		return []string{"(astr " + term + ")", "SLICE:(asl " + term + ")"}
+	case *types.Slice:
+		out := []string{"SLICE:" + term}
+		if _, ok := vc.u.heapKeys[vc.u.heapKey(tt.Elem())]; ok {
+			for i := 0; i < 4; i++ {
+				out = append(out, stringLeaves(vc, fmt.Sprintf("(select H0_%s (+ (sptr %s) %d))", vc.u.heapKey(tt.Elem()), term, i), tt.Elem(), depth+1)...)
+			}
+		}
+		return out
+	}
+	return nil
 }
